@@ -2,6 +2,7 @@ package bus
 
 import (
 	"bytes"
+	"sync"
 	"time"
 
 	"github.com/lugu/qiloop/bus/net"
@@ -24,6 +25,10 @@ type Channel interface {
 type channel struct {
 	capability CapabilityMap
 	endpoint   net.EndPoint
+	// stateMutex protects the authentication state of capability:
+	// it is read for every incoming message and written by the
+	// authentication service from another goroutine.
+	stateMutex sync.RWMutex
 }
 
 // NewChannel retuns a channel
@@ -77,11 +82,15 @@ func (c *channel) Authenticate() error {
 
 // Authenticated returns true if the connection is authenticated.
 func (c *channel) Authenticated() bool {
+	c.stateMutex.RLock()
+	defer c.stateMutex.RUnlock()
 	return c.capability.Authenticated()
 }
 
 // SetAuthenticated marks the context as authenticated.
 func (c *channel) SetAuthenticated() {
+	c.stateMutex.Lock()
+	defer c.stateMutex.Unlock()
 	c.capability.SetAuthenticated()
 }
 
